@@ -328,3 +328,61 @@ def krstrip(r0: int, r1: int, c0: int, c1: int, e_rows: int, e_cols: int, styled
     snap = snapshot(t._n)
     t.rstrip(aggressive=aggressive)
     return done(ok and snapshot(t._n) == snap and t.height == eh and t.width == ew)
+
+
+def _norm(v, n):
+    return v + n if v < 0 else v
+
+
+def kget_area_negative_rows(r0: int, r1: int, y: int, tt: int, x: int, z: int, j: int) -> bool:
+    """
+    pre: 1 <= r0 <= 2 and 1 <= r1 <= 2
+    pre: -(r0 + r1) <= y <= 3 and -(r0 + r1) <= tt <= 3 and -2 <= x <= 1 and -2 <= z <= 1 and 0 <= j <= 3
+    post: _
+    """
+    # C19: in a 4-tuple area negative numbers count from the current end (rows from the height,
+    # columns from the width) for get_values / get_cells / get_rows alike
+    t = mktab(r0, r1, 1, 1)
+    h = r0 + r1
+    w = 2
+    a = t.get_values((x, y, z, tt))
+    b = t.get_values((_norm(x, w), _norm(y, h), _norm(z, w), _norm(tt, h)))
+    ok = a == b
+    ca = t.get_cells((x, y, z, tt))
+    ok = ok and len(ca) == len(b) and (j >= len(b) or len(ca[j]) == len(b[j]))
+    ra = t.get_rows((x, y, z, tt))
+    ok = ok and len(ra) == len(b) and (j >= len(ra) or ra[j].y == _norm(y, h) + j)
+    return done(ok)
+
+
+def kget_area_negative_cols(c0: int, c1: int, x: int, z: int, i: int) -> bool:
+    """
+    pre: 1 <= c0 <= 2 and 1 <= c1 <= 2
+    pre: -(c0 + c1) <= x <= 3 and -(c0 + c1) <= z <= 3 and 0 <= i <= 3
+    post: _
+    """
+    t = mktab(1, 1, c0, c1)
+    w = c0 + c1
+    a = t.get_values((x, 0, z, -1))
+    b = t.get_values((_norm(x, w), 0, _norm(z, w), 1))
+    cols = t.get_columns((x, z))
+    colsb = t.get_columns((_norm(x, w), _norm(z, w)))
+    ok = a == b and len(cols) == len(colsb) and (i >= len(cols) or cols[i].x == colsb[i].x)
+    return done(ok)
+
+
+def kget_columns_range_small(c0: int, c1: int, x: int, z: int, i: int, four: bool) -> bool:
+    """
+    pre: 1 <= c0 <= 2 and 1 <= c1 <= 2 and 0 <= x <= 4 and 0 <= z <= 5 and 0 <= i <= 4
+    post: _
+    """
+    # C19/C08: get_columns over a column range is bounded on both sides: columns x..min(z, width-1),
+    # each stamped with its x and without repeat count, for the 2-tuple and the 4-tuple form
+    t = mktab(1, 1, c0, c1)
+    w = c0 + c1
+    cols = t.get_columns((x, 0, z, 1)) if four else t.get_columns((x, z))
+    exp_n = max(0, min(z, w - 1) - x + 1)
+    ok = len(cols) == exp_n
+    if i < len(cols):
+        ok = ok and cols[i].x == x + i and cols[i].repeated is None
+    return done(ok)
